@@ -1011,6 +1011,84 @@ func (r *runner) attack(at Attack) error {
 			"~thread": map[string]interface{}{"thid": vrec.ThreadID}}, inv)
 	case "req-same-thread": // a request re-using the victim connection's thread id
 		return send(request(vrec.ThreadID, inv.ID, fakeDID, rename(fakeDID)), inv)
+	case "req-id-remap", "req-id-remap-known": // @id = the thread id of an existing exchange, ~thread.thid fresh / another known thread
+		target := vrec.ThreadID
+
+		for _, e := range r.exs { // prefer an exchange of the target that is still under way: its thread id is the invitation's id
+			if !e.done && e.Inviter == at.Target && e.Invitee != "mallory" && e.Style == "dx" && e.inviteeConn != "" {
+				target = e.invID
+			}
+		}
+
+		thid := uuid.New().String()
+		if at.Kind == "req-id-remap-known" {
+			thid = me.x.ThreadID
+		}
+
+		m := request(target, inv.ID, fakeDID, rename(fakeDID))
+		m["~thread"] = map[string]interface{}{"thid": thid, "pthid": inv.ID}
+
+		return send(m, inv)
+	case "ping-from-spoof": // an ordinary message over mallory's own connection, naming the victim as its `from`
+		id := uuid.New().String()
+		msg := service.DIDCommMsgMap{"@id": id, "@type": basicType, "from": victimDID}
+
+		if e := w.M.ctx.Messenger().Send(msg, me.y.MyDID, me.y.TheirDID); e != nil {
+			return e
+		}
+
+		r.drain(nil)
+		x.mu.Lock()
+		defer x.mu.Unlock()
+
+		for _, h := range x.handled {
+			if h.MsgID == id && (h.MyDID != me.x.MyDID || h.TheirDID != me.x.TheirDID) {
+				r.res.failf("attribution:ping-from-spoof", "%s's handler saw (my %s, their %s) for a message mallory sent over her connection (my %s, their %s)",
+					x.Name, h.MyDID, h.TheirDID, me.x.MyDID, me.x.TheirDID)
+			}
+		}
+
+		return nil
+	case "rotate-takeover", "rotate-takeover-relkid": // a v2 message whose from_prior says the victim DID rotated to mallory's, signed by mallory
+		mdoc := dr.DIDDocument
+		forged := *mdoc
+		forged.ID = victimDID
+		forged.VerificationMethod = append([]did.VerificationMethod{}, mdoc.VerificationMethod...)
+		kid := mdoc.VerificationMethod[0].ID
+
+		if strings.HasPrefix(kid, "#") {
+			kid = baseDID + kid
+		}
+
+		if at.Kind == "rotate-takeover-relkid" {
+			kid = kid[strings.Index(kid, "#"):]
+		}
+
+		forged.VerificationMethod[0].ID = kid
+
+		jws, e := w.M.ctx.DIDRotator().Create(&forged, kid, baseDID)
+		if e != nil {
+			return e
+		}
+
+		// packed for the key the target uses on the victim connection (visible as recipient key id in the peer's envelopes)
+		peer := w.agent(v.Invitee)
+		prec := v.y
+
+		if v.Invitee == at.Target {
+			peer, prec = w.agent(v.Inviter), v.x
+		}
+
+		tk := peer.Resolve(prec.TheirDID).RecKeys
+		if len(tk) == 0 {
+			return fmt.Errorf("target keys unknown")
+		}
+
+		msg := map[string]interface{}{"id": uuid.New().String(), "type": basicType, "from": baseDID, "to": []string{vrec.MyDID},
+			"body": map[string]interface{}{}, "from_prior": jws}
+
+		return w.M.ctx.OutboundDispatcher().Send(msg, sender, &service.Destination{
+			RecipientKeys: tk, ServiceEndpoint: model.NewDIDCommV1Endpoint(x.Endpoint)})
 	case "resp-forge": // a response nobody asked for, on a fresh and on the victim thread
 		for _, th := range []string{uuid.New().String(), vrec.ThreadID} {
 			m := request(uuid.New().String(), "", victimDID, rename(victimDID))
@@ -1179,7 +1257,7 @@ func base58ish(r *hx.Rng, n int) string {
 // ---------- generators ----------
 
 var attackKinds = []string{"req-repoint", "req-repoint-badpthid", "req-repoint-keys", "req-repoint-endpoint", "req-docid-mismatch",
-	"req-docid-fresh", "lc-req-repoint", "req-nodoc", "req-keysteal", "init-repoint",
+	"req-docid-fresh", "lc-req-repoint", "req-id-remap", "req-id-remap-known", "ping-from-spoof", "rotate-takeover", "rotate-takeover-relkid", "req-nodoc", "req-keysteal", "init-repoint",
 	"complete-replay", "req-same-thread", "resp-forge", "ping-unknown", "owner-reuse"}
 
 func main() {
